@@ -490,6 +490,7 @@ SUBCHECKS = [
     Sub("wide_ops", check_op, strategy=lambda tier: wide_case(), n={"quick": 150, "thorough": 1500}, shards={"quick": 6, "thorough": 8},
         doc="marginalize / maximize / reduce / product on factors over 6-10 variables (axis and label bookkeeping beyond small scopes)"),
     Sub("ops", check_op, strategy=lambda tier: fcase(), n={"quick": 500, "thorough": 8000},
-        shards={"quick": 12, "thorough": 16}, doc="every DiscreteFactor operation vs dictionary-factor reference; operand immutability; aliasing; equality"),
+        shards={"quick": 12, "thorough": 16}, fuzz={"thorough": (2, 300)},
+        doc="every DiscreteFactor operation vs dictionary-factor reference; operand immutability; aliasing; equality"),
 ]
 PREDICATES = {}
